@@ -63,6 +63,10 @@ def cases(seed, tier):
     # thousands of pending events (sizes around powers of two), many distinct timestamps, partly drained, then used further
     out += [{"kind": "bulk", "seed": rng.randrange(1 << 40), "n": rng.choice([1023, 1024, 1025, 1500, 2048, 2049, 3000, 4100]),
              "all_due": False, "many_ts": rng.random() < 0.6} for _ in range(nb // 2)]
+    # ... and, deliberately, every size around the powers of two with many distinct timestamps inserted in random order and a first
+    # retrieval at the median timestamp (about half of the pending events due at once), then drained one by one
+    out += [{"kind": "bulk", "seed": rng.randrange(1 << 40), "n": n_, "all_due": False, "many_ts": True, "median_first": True}
+            for n_ in (1024, 1025, 1500, 2048, 2049, 4100)]
     out += [{"kind": "custom", "seed": rng.randrange(1 << 40)} for _ in range(300 if tier == "quick" else 20000)]
     return out
 
@@ -555,8 +559,11 @@ def _run_bulk(case, obs):
             return
         obs.ev("bulk_all_due_retrievals")
     else:
-        for t in sorted(rng.sample(range(nts + 1), min(nts + 1, rng.randint(1, 4)))) if nts <= 12 else sorted(
-                rng.sample(range(nts), 3) + [nts // 2, (2 * nts) // 3]):
+        times_ = sorted(rng.sample(range(nts + 1), min(nts + 1, rng.randint(1, 4)))) if nts <= 12 else sorted(
+            rng.sample(range(nts), 3) + [nts // 2, (2 * nts) // 3])
+        if case.get("median_first"):
+            times_ = [nts // 2, (3 * nts) // 4]
+        for t in times_:
             hist.append(("cur", t))
             if not do_cur(q, m, t, obs, hist) or not check_queries(q, m, obs, hist):
                 return
